@@ -8,7 +8,9 @@ Environment (modelled, validated by the correspondence, not verified):
   * UTF-8 is abstracted to a prefix code: the code units of a character `c` are the
     pairs `(c, 0) … (c, width c - 1)` with `width c = c.utf8Size`; the incremental
     decoder returns the maximal prefix of whole characters and keeps the rest
-    (`decode`, section 3);
+    (`decode`, section 3).  Round 2: the units are tied to REAL bytes (`cuByte`,
+    `realBytes`, `isLead`, `leadWidth`, `decodeR`, `splitB`; theorems in Utf8.lean / Props.lean),
+    so what is left to trust here is only that CPython's UTF-8 codec is the UTF-8 of Lean core;
   * `codecs.StreamReader.read / readline / seek / reset` and the `StreamRecoder`
     wrappers (CPython 3.12 `Lib/codecs.py`), which `SpooledStringIO` sits on through
     `codecs.EncodedFile`, are transliterated in section 3 (`Reader`).
@@ -98,6 +100,7 @@ inductive Op (α : Type) where
   | list                    -- list(f): asks len(f) as a length hint, then iterates to the end
   | drain                   -- [x for x in f]: iterates to the end
   | rollover                -- f.rollover() (also what fileno() does first)
+  | writelines (ss : List (List α))  -- f.writelines(iterable): `for line in lines: self.write(line)`
 deriving Repr
 
 inductive Out (α : Type) where
@@ -183,6 +186,7 @@ def SBytes.step (s : SBytes) : Op Byte → Out Byte × SBytes
   | .drain => (.lines (SBytes.drain (s.buf.data.length + 2) s []).1,
                (SBytes.drain (s.buf.data.length + 2) s []).2)
   | .rollover => (.unit, s.rollover)
+  | .writelines ss => (.unit, ss.foldl SBytes.write s)
 
 def SBytes.run (s : SBytes) : List (Op Byte) → List (Out Byte) × SBytes
   | [] => ([], s)
@@ -206,7 +210,7 @@ def decodeF : Nat → List CU → List Char × List CU × Bool
   | _ + 1, [] => ([], [], false)
   | fuel + 1, (c, i) :: bs =>
     if i ≠ 0 then ([], (c, i) :: bs, true)
-    else if bs.length + 1 < width c then ([], (c, i) :: bs, false)
+    else if (bs.take 3).length + 1 < width c then ([], (c, i) :: bs, false)   -- incomplete (`width c ≤ 4`)
     else ((c :: (decodeF fuel (bs.drop (width c - 1))).1),
           (decodeF fuel (bs.drop (width c - 1))).2.1,
           (decodeF fuel (bs.drop (width c - 1))).2.2)
@@ -356,6 +360,59 @@ def Reader.readline (st : File CU) (r : Reader) : List Char × File CU × Reader
             | _ => { r with linebuf := rest })
   | [] => rlLoop (r.charbuf.length + st.rest.length + 2) 72 [] st r
 
+/-! ### the abstract code units as REAL UTF-8 bytes
+
+`CU = (character, index)` is what the model's decoder works on.  `cuByte` is the byte that unit stands for in the
+real stream (`String.utf8EncodeChar` of Lean core, proved there to be the inverse of its UTF-8 decoder).  The
+two tests the abstract decoder makes — "is this unit the start of a character" (`i = 0`) and "how many units
+does the character started here have" (`width c`) — are functions of that byte alone (`isLead`, `leadWidth`;
+`C18.cuByte_isLead`, `C18.leadWidth_cuByte` in Utf8.lean), and CR / LF bytes are the encodings of CR / LF only
+(`C18.cuByte_eq_lf`, `C18.cuByte_eq_cr`), so that `bytes.splitlines` on the stored bytes (`splitB`) cuts where
+`splitL false` cuts the text (`C18.splitB_realBytes`). -/
+
+/-- the real byte an abstract code unit stands for -/
+def cuByte (u : CU) : UInt8 := (String.utf8EncodeChar u.1).getD u.2 0
+
+def realBytes (us : List CU) : List UInt8 := us.map cuByte
+
+/-- a byte that can start the encoding of a character (`0xxxxxxx`, `110xxxxx`, `1110xxxx`, `11110xxx`), i.e. not
+    a continuation byte `10xxxxxx` -/
+def isLead (b : UInt8) : Bool := decide b.IsUTF8FirstByte
+
+/-- number of bytes of the character a lead byte starts -/
+def leadWidth (b : UInt8) : Nat := if b < 0x80 then 1 else if b < 0xE0 then 2 else if b < 0xF0 then 3 else 4
+
+/-- the incremental UTF-8 decoder on REAL bytes: same loop as `decodeF`, but every decision is taken from the
+    bytes (lead / continuation byte, length class of the lead byte) and one character is decoded by Lean core's
+    verified `ByteArray.utf8DecodeChar?`.  `C18.decodeR_take`: on the real bytes of the model's stream it returns what
+    `decode` returns on the abstract units. -/
+def decodeRF : Nat → List UInt8 → List Char × List UInt8 × Bool
+  | 0, bs => ([], bs, false)
+  | _ + 1, [] => ([], [], false)
+  | fuel + 1, b :: bs =>
+    if !isLead b then ([], b :: bs, true)
+    else if (bs.take 3).length + 1 < leadWidth b then ([], b :: bs, false)   -- incomplete (`leadWidth b ≤ 4`)
+    else match ((b :: bs).take 4).toByteArray.utf8DecodeChar? 0 with
+      | some c => (c :: (decodeRF fuel (bs.drop (leadWidth b - 1))).1,
+                   (decodeRF fuel (bs.drop (leadWidth b - 1))).2.1,
+                   (decodeRF fuel (bs.drop (leadWidth b - 1))).2.2)
+      | none => ([], b :: bs, true)
+
+def decodeR (bs : List UInt8) : List Char × List UInt8 × Bool := decodeRF bs.length bs
+
+/-- `bytes.splitlines(keepends=True)`: boundaries are LF, CR and CRLF -/
+def splitB : List UInt8 → List (List UInt8)
+  | [] => []
+  | b :: bs =>
+    if b = 13 then
+      match bs with
+      | d :: bs' => if d = 10 then [13, 10] :: splitB bs' else [13] :: splitB (d :: bs')
+      | [] => [[13]]
+    else if b = 10 then [10] :: splitB bs
+    else match splitB bs with
+      | [] => [[b]]
+      | l :: ls => (b :: l) :: ls
+
 /-! ## 4. SpooledStringIO -/
 
 structure SStr where
@@ -470,6 +527,7 @@ def SStr.step (s : SStr) : Op Char → Out Char × SStr
   | .drain => (.lines (SStr.drain (s.st.data.length + 2) s []).1,
                (SStr.drain (s.st.data.length + 2) s []).2)
   | .rollover => (.unit, s.rollover)
+  | .writelines ss => (.unit, ss.foldl SStr.write s)
 
 def SStr.run (s : SStr) : List (Op Char) → List (Out Char) × SStr
   | [] => ([], s)
@@ -513,6 +571,7 @@ def Spec.step [Inhabited α] (sem : LineSem α) (f : File α) : Op α → Out α
   | .list => (.lines (sem.iter f.rest), ⟨f.data, f.pos + f.rest.length⟩)
   | .drain => (.lines (sem.iter f.rest), ⟨f.data, f.pos + f.rest.length⟩)
   | .rollover => (.unit, f)
+  | .writelines ss => (.unit, f.write ss.flatten)      -- io: ONE write of the concatenation
 
 def Spec.run [Inhabited α] (sem : LineSem α) (f : File α) : List (Op α) → List (Out α) × File α
   | [] => ([], f)
@@ -543,6 +602,7 @@ def validB (f : File Byte) : List (Op Byte) → Bool
 /-- SpooledStringIO: appending writes, seek targets inside the data, no `readline(n)` -/
 def okS (f : File Char) : Op Char → Bool
   | .write _ => f.pos = f.data.length
+  | .writelines _ => f.pos = f.data.length
   | .seek p => p ≤ f.data.length
   | .seekCur n => f.pos + n ≤ f.data.length
   | .seekEnd n => n ≤ f.data.length
@@ -568,6 +628,21 @@ def plainOp (f : File Char) : Op Char → Bool
 def plainS (f : File Char) : List (Op Char) → Bool
   | [] => true
   | op :: ops => plainOp f op && plainS (Spec.step codecSem f op).2 ops
+
+/-- tighter than `plainOp`: only what a line-cutting operation actually reads must be free of the exotic
+    boundaries — the line io.StringIO would return (readline / next), the unread rest (iteration to the end);
+    exotic characters elsewhere in the text (before the position, after the line) do not matter -/
+def plainOpT (f : File Char) : Op Char → Bool
+  | .readline => noExotic (firstLine false f.rest)
+  | .readlineN _ => noExotic (firstLine false f.rest)
+  | .next => noExotic (firstLine false f.rest)
+  | .list => noExotic f.rest
+  | .drain => noExotic f.rest
+  | _ => true
+
+def plainT (f : File Char) : List (Op Char) → Bool
+  | [] => true
+  | op :: ops => plainOpT f op && plainT (Spec.step codecSem f op).2 ops
 
 /-! ## 6. MultiFileReader -/
 
